@@ -30,7 +30,8 @@ SPEC = {
         "DiffcalcProofs.Props.C03Detector": ["C03.sign_mul_eq_of_mul_eq", "C03.detFromDelta_complete", "C03.detFromNu_complete", "C03.detRemaining_complete",
                                              "C03.detSamp2_complete"],
         "DiffcalcProofs.Props.C03Reference": ["C03.refV_entries", "C03.refConChiPhi_complete", "C03.fmec_of_refSpec", "C03.chiAndQaz_complete",
-                                              "C03.refConMuPhi_complete", "C03.refConEtaPhi_complete"]},
+                                              "C03.refConMuPhi_complete", "C03.refConEtaPhi_complete", "C03.phiAndQaz_complete", "C03.refConChiMu_complete",
+                                              "C03.shifted_roots", "C03.refConMuEta_complete", "C03.refConChiEta_complete", "C03.twoSampleReference_complete"]},
     "level": "proof",
     "rule": "all 185 implemented modes: a random physical position P over (-180,180]^6 (constructed to satisfy the void / bisect / omega constraints where the "
             "mode has them), its constraint values read off with independent geometric pseudo-angles, hkl = forward model of P; P must be a regular point "
@@ -47,9 +48,10 @@ SPEC = {
                "is among the candidates of __calc_hkl_to_position, every angle mod 2 pi; through decomposition of the forward model into the detector and sample relations, "
                "bragg_of_fwd (the position's own theta is the Bragg angle computed from the cell), completeness of the detector layers from delta, nu and qaz incl. the sign filter, "
                "twoSampleDetector_complete, and the walk through the nested generator loops; side condition 'no sibling root makes the sample layer raise' is explicit). "
-               "Three of the six reference+two-sample branches are complete (C03Reference: chi+phi, mu+phi, eta+phi given — every solution of the orientation equation "
-               "Z.N_phi.PSI^T.THETA^T = F(qaz) with the two given angles is returned mod 2 pi; the __get_chi_and_qaz read-off recovers chi and qaz). The other three (mu+eta, chi+eta, chi+mu given) "
-               "and the end-to-end assembly for the reference+two-sample and detector/naz+reference+one-sample families are covered by candidate-level correspondence + round-trip oracle only.",
+               "All six reference+two-sample branches are complete (C03Reference: twoSampleReference_complete behind the dispatcher — every solution of the orientation equation "
+               "Z.N_phi.PSI^T.THETA^T = F(qaz) with the two given angles is returned mod 2 pi; the __get_chi_and_qaz and __get_phi_and_qaz read-offs recover the remaining angles; the phase-shifted "
+               "asin / acos root pairs of mu+eta and chi+eta are complete in both forms the source chooses between). The end-to-end assembly for the reference+two-sample family (psi from the "
+               "reference constraint, qaz handed to the detector layer) and for the detector/naz+reference+one-sample family is covered by candidate-level correspondence + round-trip oracle only.",
     "search_widen": 4,
 }
 
